@@ -78,6 +78,12 @@ func (f *FilterData) SelectorMatch(item any) bool {
 		}
 
 		itemValue := itemF.Elem().Interface()
+		// a few elements are declared with differently named types in the selectors and in the item
+		// (e.g. the measurementId of the setpoint descriptions), compare those by their value
+		if iv := itemF.Elem(); iv.Type() != field.Elem().Type() &&
+			iv.Kind() == field.Elem().Kind() && iv.Type().ConvertibleTo(field.Elem().Type()) {
+			itemValue = iv.Convert(field.Elem().Type()).Interface()
+		}
 		// values like addresses contain lists and can not be compared with !=
 		if !reflect.DeepEqual(itemValue, value) {
 			return false
